@@ -34,6 +34,7 @@ type Config struct {
 	Liars        map[int]func(tick int) int64
 	WrapStore    func(idx int, s hg.Store) hg.Store
 	Maintenance  map[int]bool // nodes (re)started in maintenance mode
+	CacheOf      map[int]int  // per-node cache size (overrides CacheSize)
 	Solo         bool         // only node 0 is started (DAG engine: one hashgraph fed by the harness)
 	BootstrapDir string       // node 0 opens this existing Badger directory with Bootstrap=true
 }
@@ -201,6 +202,9 @@ func (c *Cluster) startNode(i int, currentPeers []*peers.Peer, bootstrap bool, f
 	conf := config.NewDefaultConfig()
 	conf.LogLevel = "panic"
 	conf.CacheSize = c.Cfg.CacheSize
+	if v, ok := c.Cfg.CacheOf[i]; ok {
+		conf.CacheSize = v
+	}
 	conf.SyncLimit = c.Cfg.SyncLimit
 	conf.SuspendLimit = c.Cfg.SuspendLimit
 	conf.EnableFastSync = fastSync
